@@ -187,4 +187,14 @@ harness!(c14_x_tfb_interval, { interval_body::<8>(mat_b(), any_i()) });
 harness!(c14_q_tfa0_grad, { grad_body(mat_a(0), 0) });
 harness!(c14_q_tfa1_grad, { grad_body(mat_a(1), 1) });
 harness!(c14_q_tfa2_grad, { grad_body(mat_a(2), 2) });
-harness!(c14_q_tfb_grad, { grad_body(mat_b(), any_i()) });
+// quick: one symbolic entry of the projective row (plus m33) per harness; thorough: the whole bottom row (about 8 min)
+fn mat_bj(j: usize) -> Matrix4<f32> {
+    let mut m = ident();
+    m[(3, j)] = latx::<8>();
+    m[(3, 3)] = latx::<8>();
+    m
+}
+harness!(c14_q_tfb0_grad, { grad_body(mat_bj(0), any_i()) });
+harness!(c14_q_tfb1_grad, { grad_body(mat_bj(1), any_i()) });
+harness!(c14_q_tfb2_grad, { grad_body(mat_bj(2), any_i()) });
+harness!(c14_t_tfb_grad, { grad_body(mat_b(), any_i()) });
